@@ -196,6 +196,93 @@ theorem handleEvents_total : ∀ (evs : List WsEv) (s : S) (g : Frag), s.conn.is
         have h := ih s g hc hrel (by simpa [evNext] using hrest)
         exact ⟨h.noErr, h.conn, by simpa [evsNext, evNext] using h.buf, h.hs, h.closed, h.st⟩
 
+/-- `_handle_events` hands the protocol only frames to write and `StreamClosed` -/
+def QuietEv : Ev → Prop
+  | .data _ => True
+  | .streamClosed => True
+  | _ => False
+
+theorem sendWs_quiet (s : S) (o : WsOut) : ∀ e ∈ (sendWs s o).2.1, QuietEv e := by
+  unfold sendWs
+  split
+  · simp
+  · split <;> simp [QuietEv]
+
+theorem handleEvents_quiet : ∀ (evs : List WsEv) (s : S), ∀ e ∈ (handleEvents s evs).2.2.1, QuietEv e := by
+  intro evs
+  induction evs with
+  | nil => intro s e h; simp [handleEvents] at h
+  | cons ev rest ih =>
+    intro s e h
+    cases ev with
+    | message p fin =>
+      simp only [handleEvents] at h
+      rcases hx : s.buffer.extend p with ⟨b, err⟩
+      rw [hx] at h
+      cases err with
+      | none =>
+        simp only [] at h
+        split at h
+        · exact ih _ e h
+        · exact ih _ e h
+      | some be =>
+        cases be with
+        | tooLarge => exact sendWs_quiet _ _ e h
+        | typeError => simp at h
+    | ping payload =>
+      simp only [handleEvents] at h
+      rcases hx : sendWs s (.pong payload) with ⟨s1, e1, err⟩
+      have hq := sendWs_quiet s (.pong payload)
+      rw [hx] at h hq
+      cases err with
+      | some x => exact hq e h
+      | none =>
+        simp only [List.mem_append] at h
+        rcases h with h | h
+        · exact hq e h
+        · exact ih _ e h
+    | pong _ => simp only [handleEvents] at h; exact ih _ e h
+    | close code =>
+      simp only [handleEvents] at h
+      by_cases hrc : s.conn.map connRecvClose = some .remoteClosing
+      · simp only [hrc, if_true] at h
+        rcases hx : sendWs { s with conn := some .remoteClosing, clientCloseCode := some code } (.close code) with ⟨s1, e1, err⟩
+        have hq := sendWs_quiet { s with conn := some .remoteClosing, clientCloseCode := some code } (.close code)
+        rw [hx] at h hq
+        cases err with
+        | some x => exact hq e h
+        | none =>
+          simp only [List.mem_append, List.mem_cons, List.not_mem_nil, or_false] at h
+          rcases h with (h | h) | h
+          · exact hq e h
+          · subst h; trivial
+          · exact ih _ e h
+      · simp only [hrc, if_false] at h
+        simp only [List.nil_append, List.cons_append, List.mem_cons] at h
+        rcases h with h | h
+        · subst h; trivial
+        · exact ih _ e h
+    | failed code =>
+      simp only [handleEvents] at h
+      by_cases hrc : s.conn = some .remoteClosing
+      · simp only [hrc, if_true] at h
+        rcases hx : sendWs { s with conn := some .remoteClosing, clientCloseCode := some code } (.close code) with ⟨s1, e1, err⟩
+        have hq := sendWs_quiet { s with conn := some .remoteClosing, clientCloseCode := some code } (.close code)
+        rw [hx] at h hq
+        cases err with
+        | some x => exact hq e h
+        | none =>
+          simp only [List.mem_append, List.mem_cons, List.not_mem_nil, or_false] at h
+          rcases h with (h | h) | h
+          · exact hq e h
+          · subst h; trivial
+          · exact ih _ e h
+      · simp only [hrc, if_false] at h
+        simp only [List.nil_append, List.cons_append, List.mem_cons] at h
+        rcases h with h | h
+        · subst h; trivial
+        · exact ih _ e h
+
 /-- what the library can have yielded for the bytes handed to `handle(Data)`: nothing unless the stream consults its
     wsproto connection (open stream, accepted handshake), else a sequence allowed by the reassembly state -/
 def dataOk (g : Frag) (s : S) (evs : List WsEv) : Bool :=
@@ -301,7 +388,7 @@ theorem appSend_keeps (token : Bytes → Bytes) (ext : Option Bytes) (s : S) (m 
     | none =>
       simp only []
       split
-      · exact ⟨rfl, hok, rfl, id⟩
+      · exact ⟨rfl, hok, rfl, fun h => by simp at h⟩
       · split
         · have hk := hsw s (.close 1011) rfl rfl rfl rfl
           rw [show sendWs s (.close 1011) = ((sendWs s (.close 1011)).1, (sendWs s (.close 1011)).2.1, (sendWs s (.close 1011)).2.2) from rfl]
@@ -360,7 +447,7 @@ theorem stateAtRaise_keeps (token : Bytes → Bytes) (ext : Option Bytes) (s : S
   have hk := appSend_keeps token ext s m hok
   unfold stateAtRaise
   split
-  · exact ⟨rfl, hok, rfl, id⟩
+  · exact ⟨rfl, hok, rfl, fun h => by simp at h⟩
   · exact ⟨rfl, hok, rfl, fun h => by simp at h⟩
   · exact hk
 
